@@ -60,6 +60,20 @@ def run_case(cs):
     d = cs.dir()
     root = os.path.join(d, world.root_name(rng))
     world.write_tree(root, tree)
+    if rng.random() < 0.25:
+        # symbolic links whose own name is pattern fodder while the target's name is not (proxy.tmp -> clip.mov)
+        plain = sorted(k for k, v in tree.items() if v is not None and re.match(r"^[A-Za-z0-9]+(\.[a-z0-9]+)?$", os.path.basename(k)) and os.path.basename(k) not in ("temp", "scratch", "bfile"))
+        for ln in rng.sample(["proxy.tmp", "link.bak", "lx.dat", "l~", "alink", "Thumbs.db"], rng.randint(1, 2)):
+            if not plain:
+                break
+            tgt = rng.choice(plain)
+            par = rng.choice(dirs)
+            rel = (par + "/" if par else "") + ln
+            if rel in tree or os.path.lexists(os.path.join(root, rel)):
+                continue
+            os.symlink(os.path.relpath(os.path.join(root, tgt), os.path.dirname(os.path.join(root, rel))), os.path.join(root, rel))
+            tree[rel] = tree[tgt]
+            cs.count("symlinks_with_pattern_names")
     subdirs = sorted(k for k, v in tree.items() if v is None)
     # gitwildmatch strips unescaped leading/trailing blanks and gives # ! \\ [ ] * ? a meaning: only plain names become patterns
     dirpats = [os.path.basename(s) + "/" for s in rng.sample(subdirs, min(len(subdirs), 2)) if re.match(r"^[A-Za-z0-9_.][A-Za-z0-9_.-]*$", os.path.basename(s))]
@@ -212,6 +226,15 @@ def run_case(cs):
     # ---- edits under ignored paths, then verify / verify -dh / diff must stay quiet
     ondisk = world.read_tree(root)
     ign_files = sorted(k for k, v in ondisk.items() if v is not None and ignoreref.match(eff, k) is True)
+    # an edit through an ignored link would change its (not ignored) target, removing the target of a link leaves the
+    # link dangling: both change not ignored paths, so links and their targets are left alone here
+    link_ends = set()
+    for k in ondisk:
+        pk = os.path.join(root, k)
+        if os.path.islink(pk):
+            link_ends.add(os.path.realpath(pk))
+            link_ends.add(os.path.abspath(pk))
+    ign_files = [k for k in ign_files if os.path.abspath(os.path.join(root, k)) not in link_ends and os.path.realpath(os.path.join(root, k)) not in link_ends]
     kind = rng.choice(["edit", "add", "remove", "none"])
     what = None
     if kind == "edit" and ign_files:
